@@ -17,6 +17,7 @@ import MW.Model.Ledger
 import MW.Spec.Chain
 import MW.Lemmas.LedgerDeposit
 import MW.Lemmas.LedgerDepositEx
+import MW.Lemmas.TxmgrCodecRec
 namespace MW.Props.C10
 open MW MW.Model.Ledger MW.Spec.Chain MW.Spec.Books MW.Lemmas.Ledger
 
@@ -395,5 +396,52 @@ example : ¬ confs dpS.syncedTo 2 ≥ (creditOf dpCtx.p dpU2).maturity :=
 /-- the old-style binding deposit t1:3 is withdrawable at once -/
 example : confs dpS.syncedTo 2 ≥ (creditOf dpCtx.p dpU3).maturity :=
   binding_old_withdrawable dpHyp.1 dpU3_mem (t := "O") rfl rfl
+
+-- ------------------------------------------------------------------ byte level (Round 4): deposit-history keys (buckets lg / LG)
+section Codec
+open MW.Model.TxmgrCodec MW.TxmgrCodec MW.Gen.Codec
+
+/-- the regenerated key tables of the deposit history tile their 88 / 80 bytes, and every span readGameHistory looks at
+    is a span keyGameHistory (mined) resp. keyUnminedGameHistory (pending) fills -/
+theorem codec_game_tables :
+    WFRec wKeyGameHistory = true ∧ WFRec wKeyUnminedGameHistory = true ∧
+    (rGameHistory.spans.all (fun r => wKeyGameHistory.spans.any (matchSpan r) || wKeyUnminedGameHistory.spans.any (matchSpan r))) = true ∧
+    rGameHistory.bits.map (fun b => (b.off, b.bit, b.mask)) = wKeyGameHistory.bits.map (fun b => (b.off, b.bit, b.mask)) := by decide
+
+/-- reading back any field of a deposit-history key (mined layout) gives the value written, for all field tuples within
+    the widths -/
+theorem codec_game_key_read (vals : List Val) (hf : Fits wKeyGameHistory.spans vals = true) (s : Span) (v : Val)
+    (hm : (s, v) ∈ wKeyGameHistory.spans.zip vals) : readVal s (encode wKeyGameHistory vals) = v :=
+  readVal_encode wKeyGameHistory vals (by decide) hf s s v hm rfl rfl rfl
+
+/-- distinct (wallet, kind, withdrawn, tx, height, vout) tuples have distinct keys -/
+theorem codec_game_key_inj (vals vals' : List Val) (hf : Fits wKeyGameHistory.spans vals = true)
+    (hf' : Fits wKeyGameHistory.spans vals' = true) (he : encode wKeyGameHistory vals = encode wKeyGameHistory vals') :
+    vals = vals' := encode_inj wKeyGameHistory vals vals' (by decide) hf hf' he
+theorem codec_ugame_key_inj (vals vals' : List Val) (hf : Fits wKeyUnminedGameHistory.spans vals = true)
+    (hf' : Fits wKeyUnminedGameHistory.spans vals' = true)
+    (he : encode wKeyUnminedGameHistory vals = encode wKeyUnminedGameHistory vals') :
+    vals = vals' := encode_inj wKeyUnminedGameHistory vals vals' (by decide) hf hf' he
+
+/-- the scan of a wallet's records of one kind (getRawGameHistoryByWalletId): the prefix over the first two key fields
+    matches exactly the keys with that wallet id and that kind byte -/
+theorem codec_scan_game_by_wallet_kind (pvals vals : List Val) (hp : Fits (wKeyGameHistory.spans.take 2) pvals = true)
+    (hf : Fits wKeyGameHistory.spans vals = true) :
+    (flat (wKeyGameHistory.spans.take 2) pvals).isPrefixOf (encode wKeyGameHistory vals) = true ↔ pvals = vals.take 2 :=
+  prefix_exact_encode wKeyGameHistory 2 pvals vals (by decide) (by decide) hp hf
+
+/-- a concrete key meets the hypotheses: binding, withdrawn, maximal height -/
+example : Fits wKeyGameHistory.spans [.b (List.replicate 42 0x61), .n 1, .n 1, .b (List.replicate 32 0xff), .n (2 ^ 64 - 1), .n 3] = true := by
+  decide
+/-- the flag byte of the credit value: for EVERY (change, class) the class field and the change bit read back and
+    `spent` reads 0 (all credits are created unspent); bit positions from the regenerated tables -/
+theorem codec_credit_flags :
+    ([true, false].all fun ch => [ClassB.standard, ClassB.staking, ClassB.binding].all fun c =>
+      match rCreditValue.bits, wValueUnspentCredit.spans with
+      | [bS, bC, bK], [_, f, _, _] =>
+        let fl := flagByte (bitsAt wValueUnspentCredit f.off) [ch, c = .staking, c = .binding]
+        bitField bS fl == 0 && ((bitField bC fl != 0) == ch) && bitField bK fl == c.code
+      | _, _ => false) = true := by decide
+end Codec
 
 end MW.Props.C10
